@@ -89,6 +89,20 @@ TFval == /\ IsEvent("fval")
               /\ Expect(Ev.tailsame, "reads-outside-received-bytes")
          /\ UNCHANGED vars
 
-TraceNext == TH2 \/ THpack \/ TRandH2 \/ THpInt \/ TFval
+(* slist{case,target,items,handled,write,data,body}: one SETTINGS frame naming identifiers several times, through the real
+   connection object (handled: accepted|refused|parse-refused|panic|loop); when accepted the connection then sends a
+   message with `body` bytes (write: sent|error|loop|panic, data = DATA payload bytes that left) *)
+TSList == /\ IsEvent("slist")
+          /\ LET sl == Ev.items IN
+               /\ sl \in SettingLists
+               /\ Expect(Ev.handled \notin {"panic", "loop"}, "settings-" \o Ev.handled)
+               /\ Expect(Ev.write # "panic", "writer-panics-after-settings")
+               /\ Expect(Ev.write # "loop", "writer-loops-after-settings")
+               /\ Expect(~(SListExpect(sl) = "refused" /\ Ev.handled = "accepted"), "absurd-setting-accepted")
+               /\ Expect(~(SListExpect(sl) = "accepted" /\ Ev.handled \in {"refused", "parse-refused"}), "legal-settings-refused")
+               /\ Expect((SListExpect(sl) = "accepted" /\ Ev.handled = "accepted") => (Ev.write = "sent" /\ Ev.data = Ev.body), "body-not-sent-after-settings")
+          /\ UNCHANGED vars
+
+TraceNext == TSList \/ TH2 \/ THpack \/ TRandH2 \/ THpInt \/ TFval
 TraceSpec == TraceInit /\ [][TraceNext]_tvars
 ====
